@@ -18,37 +18,37 @@ import (
 // deterministically from the PRNG.
 
 type hCfg struct {
-	NAssoc       int
-	MaxSess      int  // live sessions per history
-	Steps        int  // operations per history (after association setup)
-	PChoose      int  // percent of uplink PDRs with CHOOSE F-TEID
+	NAssoc         int
+	MaxSess        int  // live sessions per history
+	Steps          int  // operations per history (after association setup)
+	PChoose        int  // percent of uplink PDRs with CHOOSE F-TEID
 	CreateByModUP4 bool // (C04 only) histories with Create PDR by modification on UP4: leftovers of a rejected one are one recorded finding
-	KeyChangeUP4 bool // (C04 only) histories with key-changing Update PDRs on UP4: mismatches after one are one recorded finding
-	ExtraQER     bool // some sessions carry a QER that no PDR references; the mod "rmqer-extra" removes it (no PDR is removed with it)
-	ShufflePDI   bool // the IEs inside each PDI are sent in a random order
-	PChooseDL    int  // percent of downlink (core-side) PDRs that also carry a CHOOSE F-TEID (N9-style); response checks only
-	PAlloc       int  // percent of sessions asking for UE IP allocation (agent must have it enabled)
-	PSDF         int  // percent of PDRs with an SDF filter
-	Canonical    bool // only `from <remote> to assigned` flow descriptions
-	MaxPortWidth int
-	MaxPairs     int // PDR pairs (uplink+downlink) per session
-	MaxQER       int // QERs per session (0..MaxQER)
-	Negatives    bool
-	Mods         []string // enabled modification kinds
-	UP4          bool
-	GNBs         []string // gNB addresses to draw from
-	AppFilters   int      // number of distinct application filters to draw from (UP4 sharing); 0 = free
-	EstOnly      bool     // UP4: rules are only created at establishment
-	PrecSet      []uint32
-	QFIs         []uint8
-	RateMax      uint64
-	SEIDs        func(rng *rand.Rand) uint64
-	Seqs         func(rng *rand.Rand) uint32
-	Extras       bool // also heartbeat / PFD management requests and response-type messages
-	SamePrecPair bool // the uplink and the downlink PDR of a pair (same filter) carry the same precedence
-	NoRelease    bool // run() leaves the associations (and live sessions) in place
-	AddrBase     int  // first host number of this runner's peer addresses (default 20)
-	SafeQER      bool // steer around the session-QER heuristic's known unsound shapes (owned by C09): with 2+ QERs the
+	KeyChangeUP4   bool // (C04 only) histories with key-changing Update PDRs on UP4: mismatches after one are one recorded finding
+	ExtraQER       bool // some sessions carry a QER that no PDR references; the mod "rmqer-extra" removes it (no PDR is removed with it)
+	ShufflePDI     bool // the IEs inside each PDI are sent in a random order
+	PChooseDL      int  // percent of downlink (core-side) PDRs that also carry a CHOOSE F-TEID (N9-style); response checks only
+	PAlloc         int  // percent of sessions asking for UE IP allocation (agent must have it enabled)
+	PSDF           int  // percent of PDRs with an SDF filter
+	Canonical      bool // only `from <remote> to assigned` flow descriptions
+	MaxPortWidth   int
+	MaxPairs       int // PDR pairs (uplink+downlink) per session
+	MaxQER         int // QERs per session (0..MaxQER)
+	Negatives      bool
+	Mods           []string // enabled modification kinds
+	UP4            bool
+	GNBs           []string // gNB addresses to draw from
+	AppFilters     int      // number of distinct application filters to draw from (UP4 sharing); 0 = free
+	EstOnly        bool     // UP4: rules are only created at establishment
+	PrecSet        []uint32
+	QFIs           []uint8
+	RateMax        uint64
+	SEIDs          func(rng *rand.Rand) uint64
+	Seqs           func(rng *rand.Rand) uint32
+	Extras         bool // also heartbeat / PFD management requests and response-type messages
+	SamePrecPair   bool // the uplink and the downlink PDR of a pair (same filter) carry the same precedence
+	NoRelease      bool // run() leaves the associations (and live sessions) in place
+	AddrBase       int  // first host number of this runner's peer addresses (default 20)
+	SafeQER        bool // steer around the session-QER heuristic's known unsound shapes (owned by C09): with 2+ QERs the
 	// last one is a non-GBR QER with the strictly largest uplink MBR, referenced last by every PDR, and is not updated
 }
 
@@ -68,30 +68,30 @@ type hOp struct {
 }
 
 type hRunner struct {
-	res   *vResult
-	a     *vAgent
-	rng   *rand.Rand
-	cfg   hCfg
-	peers []*vPeer
-	up    []bool // association established
-	live  []*mSession
-	n3    uint32
-	n6    uint32
-	nsess int // session counter (unique UE addresses / TEIDs within the agent instance)
-	base  int // offset for unique addressing across histories on one agent instance
-	trace []string
-	rejected int // requests inside the envelope that the agent rejected
-	ghosts   []mGhost
-	sawKeyChange bool // an Update PDR changed a match key in this history
+	res          *vResult
+	a            *vAgent
+	rng          *rand.Rand
+	cfg          hCfg
+	peers        []*vPeer
+	up           []bool // association established
+	live         []*mSession
+	n3           uint32
+	n6           uint32
+	nsess        int // session counter (unique UE addresses / TEIDs within the agent instance)
+	base         int // offset for unique addressing across histories on one agent instance
+	trace        []string
+	rejected     int // requests inside the envelope that the agent rejected
+	ghosts       []mGhost
+	sawKeyChange bool   // an Update PDR changed a match key in this history
 	farBase      uint32 // FAR ID = PDR ID + farBase (even): rule ids of different kinds need not coincide
 	farBaseSet   bool
-	ghostPeers map[uint32]bool // GTP peers a FAR was moved away from by an Update FAR
+	ghostPeers   map[uint32]bool // GTP peers a FAR was moved away from by an Update FAR
 	precByFilter map[mFilter]uint32
 
 	// callbacks
 	onBefore func(h *hRunner, op *hOp)
-	onReply func(h *hRunner, op *hOp, ex *vExchange, rep *vReply, accepted bool) // after each exchange, before the model is updated
-	onState func(h *hRunner, op *hOp, accepted bool)                            // after the model was updated
+	onReply  func(h *hRunner, op *hOp, ex *vExchange, rep *vReply, accepted bool) // after each exchange, before the model is updated
+	onState  func(h *hRunner, op *hOp, accepted bool)                             // after the model was updated
 }
 
 func (h *hRunner) logf(f string, a ...interface{}) {
